@@ -2,7 +2,7 @@
    opcode tables regenerated from vyper/evm/opcodes.py. *)
 From Coq Require Import ZArith List Bool String Lia.
 From Verif Require Import Base.PyInt C16.Asm C16.HexBytes C16.LoopsPrelude C16.PushProofs C16.AsmProofs C16.DecodeProofs
-  C16.Views C16.ViewsProofs C16.AsmTextProofs C16.EvmOpcodes C16.GenOpcodes C16.PropsAsm.
+  C16.Views C16.ViewsProofs C16.AsmTextProofs C16.TableProofs C16.EvmOpcodes C16.GenOpcodes C16.PropsAsm.
 Import ListNotations.
 Open Scope list_scope.
 Open Scope Z_scope.
@@ -80,3 +80,35 @@ Proof.
   unfold asm_text. change (Z.of_nat 0) with 0 in E. rewrite E. cbn. eexists; reflexivity.
 Qed.
 Print Assumptions asm_listing_total.
+
+(* data sections / jump tables (the layout C07's dispatch tables rely on): item k of a data section lies at
+   offset(header) + sizes of the items before it -- so record i of a table of r-byte records is at table + i*r *)
+Theorem data_item_position : forall tbl push0 asm bs sm cm p t ds it s,
+  assemble tbl push0 asm = Ok (bs, sm, cm) -> asm = p ++ IDataHeader t :: ds ++ it :: s ->
+  forallb is_data_item ds = true ->
+  exists base bi bpre bsuf,
+    lookup sm t = Some base /\ emit_item tbl push0 sm cm it = Ok bi /\
+    bs = bpre ++ bi ++ bsuf /\ zlen bpre = base + data_size ds.
+Proof. exact data_item_position_model. Qed.
+Print Assumptions data_item_position.
+
+(* a label stored in a data section (sparse-table entry, dense-table bucket pointer / function entry, venom djmp
+   table): its two bytes are the big-endian resolved offset (< 2^16); a code label's offset is a valid EVM jump
+   destination of the final bytes, a data header's offset is where that section's data starts *)
+Theorem data_label_target : forall v asm bs sm cm p l s, In v evm_versions ->
+  assemble (opcode_table v) (has_push0 v) asm = Ok (bs, sm, cm) -> wf_asm (opcode_table v) asm = true ->
+  asm = p ++ IDataLabel l :: s ->
+  exists off bpre bsuf,
+    lookup sm l = Some off /\ 0 <= off < 65536 /\ bs = bpre ++ [off / 256; off mod 256] ++ bsuf /\
+    pc_after (opcode_table v) (has_push0 v) cm p 0 = Ok (zlen bpre) /\
+    (In (ILabel l) asm -> valid_jumpdest bs off) /\
+    (forall p' s', asm = p' ++ IDataHeader l :: s' ->
+       exists bp', emit (opcode_table v) (has_push0 v) sm cm p' = Ok bp' /\ off = zlen bp').
+Proof. intros v asm bs sm cm p l s I. apply data_label_target_model. apply jumpdest_in_tables. exact I. Qed.
+Print Assumptions data_label_target.
+
+Example table_nonvacuous :
+  exists bs sm cm, assemble (opcode_table idx_prague) (has_push0 idx_prague)
+     [IPushLabel 2; IOp "JUMP"; ILabel 1; IOp "STOP"; IDataHeader 2; IDataBytes [7]; IDataLabel 1; IDataLabel 2] = Ok (bs, sm, cm) /\
+   bs = [0x61; 0; 6; 0x56; 0x5b; 0; 7; 0; 4; 0; 6] /\ lookup sm 2 = Some 6 /\ lookup sm 1 = Some 4.
+Proof. eexists. eexists. eexists. vm_compute. auto. Qed.
